@@ -103,7 +103,7 @@ Proof.
   intros H. pose proof (osim_get k _ _ H) as G. unfold field_val.
   destruct (get k m1) as [v1|], (get k m2) as [v2|]; try contradiction; [|reflexivity].
   inversion G; subst; cbn.
-  - destruct v2, t; cbn; eauto using sim_refl.
+  - destruct v2 as [| | | |[?|] ?| | | | | |], t; cbn; eauto using sim_refl.
   - destruct t; cbn; eauto using sim.
   - destruct t; cbn; eauto using sim.
   - destruct t; cbn; eauto using sim.
@@ -122,7 +122,7 @@ Proof.
   destruct (field_val t m1 k) as [|v1|] eqn:E; [exact R | | congruence].
   destruct R as (v2 & -> & S). f_equal.
   unfold field_val in E. destruct (get k m1) as [x|]; [|discriminate].
-  destruct St as [->|[->| ->]]; destruct x; cbn in E; try discriminate; injection E as <-;
+  destruct St as [->|[->| ->]]; destruct x as [| | | |[?|] ?| | | | | |]; cbn in E; try discriminate; injection E as <-;
     inversion S; reflexivity.
 Qed.
 
@@ -941,12 +941,23 @@ Example doc22_split :
     get "dns" (norm_obj b) = Some (VObj [("upstream_mode", VStr "parallel")]).
 Proof. do 3 eexists. repeat split; vm_compute; reflexivity. Qed.
 
-(** ** The unconditional reading is false
+(** ** The unconditional reading
 
-    "The result never depends on the path", with a failing one run included:
-    refuted by a whole-valued float at a key a step reads as an int.  In
-    memory the step rejects the float64; a file written at an earlier version
-    holds [2] for [2.0] (yaml prints it so), which reads back as an int. *)
+    "The result never depends on the path", with a failing one run included.
+    Until fix bb8b603 this was false for decoded documents: a whole-valued
+    float at a key a step reads as an int failed in one run and succeeded in a
+    split run (the file written at the split point holds [2] for [2.0]).
+    [fieldVal] now converts such a float ([coerce]), and the former witness
+    upgrades alike on both paths ([whole_float_same]).
+
+    The statement is about decoded documents ([plain]: no Go-typed leftovers,
+    which only steps create).  Without that restriction it is false for a
+    reason that has nothing to do with files ([typed_input_path_dependent]: a
+    duration object where a step reads a string).  Proved: every case in which
+    the one run does not fail ([path_independent_unconditional_partial]).
+    Missing: "the one run fails => the split run fails", which needs the
+    simulation in the other direction together with an invariant saying where
+    steps leave typed values; the harness checks it on every split run. *)
 
 Definition split_run (O : oracles) (top : option obj) (k t : Z) : outcome :=
   match migrate O top k with
@@ -961,22 +972,60 @@ Definition same_result (o1 o2 : outcome) : Prop :=
   | _, _ => False
   end.
 
+Fixpoint plain (v : val) : bool :=
+  match v with
+  | VDur _ | VMode _ | VStrs _ => false
+  | VArr l => forallb plain l
+  | VObj m => forallb (fun kv => plain (snd kv)) m
+  | _ => true
+  end.
+
+Definition plain_doc (top : option obj) : bool :=
+  match top with None => true | Some m => plain (VObj m) end.
+
 Definition path_independent_unconditional_statement : Prop :=
-  forall O top t k, version_of (input_map top) < k < t ->
+  forall O top t k, plain_doc top = true -> version_of (input_map top) < k < t ->
     same_result (migrate O top t) (split_run O top k t).
+
+Lemma path_independent_unconditional_partial O top t k :
+  version_of (input_map top) < k < t -> migrate O top t <> OErr ->
+  same_result (migrate O top t) (split_run O top k t).
+Proof.
+  intros R N. destruct (migrate O top t) as [| |a|] eqn:E.
+  - congruence.
+  - (* not upgraded: the document is at version t, so no k lies between *)
+    exfalso. unfold migrate in E. fold (input_map top) in E.
+    destruct (field_val TInt (input_map top) "schema_version") eqn:F; try discriminate;
+      unfold version_of in R; rewrite F in R; cbn [fv_val] in *;
+      (destruct (_ >? t) eqn:E1; [discriminate|]); (destruct (t >? last_version) eqn:E2; [discriminate|]);
+      (destruct (_ =? t) eqn:E3; [lia|]); destruct (upgrade O _ _ _); discriminate.
+  - destruct (migrate_path_independent O _ _ _ _ E R) as (b & c & H1 & H2 & H3).
+    unfold split_run. rewrite H1, H2. cbn. congruence.
+  - exfalso. exact (migrate_no_panic O _ _ E).
+Qed.
 
 Definition float_doc : obj := [("schema_version", VInt 9); ("rlimit_nofile", VFloat (Some 2) "2")].
 
-Lemma path_independent_unconditional_refuted :
-  exists O top t k, version_of (input_map top) < k < t /\
-    migrate O top t = OErr /\ exists c, split_run O top k t = ONew c.
-Proof.
-  exists oracles0, (Some float_doc), 29, 10. split; [vm_compute; split; reflexivity|].
-  split; [vm_compute; reflexivity|]. eexists. vm_compute. reflexivity.
-Qed.
+(** The former counter-example: accepted in one run, same file as the split run. *)
+Lemma whole_float_same :
+  exists a c, migrate oracles0 (Some float_doc) 29 = ONew a /\
+    split_run oracles0 (Some float_doc) 10 29 = ONew c /\ norm_obj a = norm_obj c /\
+    get "os" a = Some (VObj [("group", VStr ""); ("rlimit_nofile", VInt 2); ("user", VStr "")]).
+Proof. do 2 eexists. repeat split; vm_compute; reflexivity. Qed.
 
-Lemma path_independent_unconditional_false : ~ path_independent_unconditional_statement.
-Proof.
-  intros H. destruct path_independent_unconditional_refuted as (O & top & t & k & R & E & c & S).
-  specialize (H O top t k R). rewrite E, S in H. exact H.
-Qed.
+(** A fractional float is rejected on both paths. *)
+Lemma fractional_float_rejected :
+  let d := Some [("schema_version", VInt 9); ("rlimit_nofile", VFloat None "2.5")] in
+  migrate oracles0 d 29 = OErr /\ split_run oracles0 d 10 29 = OErr.
+Proof. split; vm_compute; reflexivity. Qed.
+
+(** Why the statement speaks of decoded documents: a tree that already holds
+    a Go duration where step 8 reads a string fails in one run and succeeds
+    when split (the file holds the duration's text).  No decoded document
+    looks like that. *)
+Definition typed_doc : obj := [("schema_version", VInt 6); ("dns", VObj [("bind_host", VDur 5)])].
+
+Lemma typed_input_path_dependent :
+  plain_doc (Some typed_doc) = false /\
+  migrate oracles0 (Some typed_doc) 29 = OErr /\ exists c, split_run oracles0 (Some typed_doc) 7 29 = ONew c.
+Proof. split; [reflexivity|]. split; [vm_compute; reflexivity|]. eexists. vm_compute. reflexivity. Qed.
